@@ -109,6 +109,10 @@ func (pc PrometheusConfig) validate() error {
 		}
 	}
 
+	if err := validateConcurrency(pc.Concurrency); err != nil {
+		return err
+	}
+
 	if pc.Uptime != "" {
 		if _, err := parser.ParseExpr(pc.Uptime); err != nil {
 			return fmt.Errorf("invalid Prometheus uptime metric selector %q: %w", pc.Uptime, err)
@@ -141,6 +145,17 @@ func (pc PrometheusConfig) validate() error {
 		}
 	}
 
+	return nil
+}
+
+// maxConcurrency is far above anything useful, every unit is a goroutine and
+// ten slots of request queue.
+const maxConcurrency = 4096
+
+func validateConcurrency(n int) error {
+	if n > maxConcurrency {
+		return fmt.Errorf("prometheus concurrency cannot be higher than %d, got %d", maxConcurrency, n)
+	}
 	return nil
 }
 
